@@ -510,6 +510,10 @@ def main_check(mod, argv):
     print(f'[{mod.PROP}] runs={total.c["runs"]} wall={wall:.1f}s faults_fired={sum(total.faults.values())} '
           f'distinct_nontrivial={len(total.distinct.get("nontrivial", ()))} canary_ok={meta["canary_ok"]} '
           f'unattributable={total.c.get("unattributable", 0)} ref_unsupported={total.c.get("ref_unsupported", 0)}')
+    rejected = total.c.get('generated_program_rejected_by_the_parser', 0)
+    if rejected:
+        print(f'WARNING generated-programs-rejected: {rejected} of {total.c["runs"]} generated (valid by construction) '
+              'programs were rejected by the parser and skipped')
     unat = total.c.get('unattributable', 0)
     if total.c['runs'] and unat / total.c['runs'] > 0.2:
         print(f'WARNING reference-divergence: {unat} of {total.c["runs"]} runs unattributable')
